@@ -654,6 +654,9 @@ where
             let _ = self.poll_grease_stream(cx);
         }
 
+        #[cfg(h3_verif)]
+        crate::verif::log_control_frame(crate::verif::conn_key(&self.shared), &res);
+
         Poll::Ready(Ok(res))
     }
 
